@@ -221,13 +221,18 @@ func visitInline(fw *formatWriter, source []byte, cursor *commonmark.Cursor) boo
 			return false
 		}
 
+		bangBeforeLink := nextSiblingKind(cursor) == commonmark.LinkKind
 		for s := spanSlice(source, child.Span()); len(s) > 0; {
 			r, n := utf8.DecodeRune(s)
 			if r == '\n' && cursor.ParentBlock().Kind() == commonmark.SetextHeadingKind {
 				s = s[n:]
 				continue
 			}
-			if strings.ContainsRune(`\[]*_-+=<>&#~`+"`", r) {
+			switch {
+			case strings.ContainsRune(`\[]*_-+=<>&#~`+"`", r):
+				fw.s(`\`)
+			case r == '!' && len(s) == n && bangBeforeLink:
+				// Would turn the link into an image.
 				fw.s(`\`)
 			}
 			fw.b(s[:n])
@@ -243,6 +248,18 @@ func visitInline(fw *formatWriter, source []byte, cursor *commonmark.Cursor) boo
 		fw.b(spanSlice(source, child.Span()))
 		return false
 	}
+}
+
+// nextSiblingKind returns the kind of the inline
+// that follows the inline at the cursor in its parent,
+// or zero if there is none.
+func nextSiblingKind(cursor *commonmark.Cursor) commonmark.InlineKind {
+	parent := cursor.Parent()
+	i := cursor.Index() + 1
+	if i <= 0 || i >= parent.ChildCount() {
+		return 0
+	}
+	return parent.Child(i).Inline().Kind()
 }
 
 func postInline(fw *formatWriter, source []byte, cursor *commonmark.Cursor) {
